@@ -907,7 +907,11 @@ def Skel.run : Skel → Bool → Bool × Option Bool
     let w2 := w || r1.2.getD false
     let r2 := Skel.run b w2
     (r1.1 && r2.1, some (w2 || r2.2.getD false))
-  | .guarded b, w => (true, (Skel.run b w).2)
+  | .guarded b, w =>
+    -- the snapshot is taken at the entry of the block: a rejection inside is harmless only if nothing had been
+    -- written BEFORE the block
+    let r := Skel.run b w
+    (if w then r.1 else true, r.2)
   | .tryalt b hs, w =>
     let rb := Skel.run b w
     let rh := Skel.runAlt hs (Skel.handlerEntry b w)
